@@ -4,13 +4,15 @@ use crate::runner::{Check, Report};
 use crate::sim::{run, Ev, RunOpts};
 use crate::spec::*;
 
-fn still(check: &dyn Check, scn: &Scenario, sig: &str, budget: &mut u32) -> Option<Report> {
-    if *budget == 0 {
+fn still(check: &dyn Check, scn: &Scenario, sig: &str, budget: &mut u32, work: &mut u64) -> Option<Report> {
+    if *budget == 0 || *work == 0 {
+        *budget = 0;
         return None;
     }
     *budget -= 1;
     let _g = crate::runner::watch(scn);
     let rep = check.evaluate(scn);
+    *work = work.saturating_sub(rep.events.max(1));
     if rep.violations.iter().any(|v| v.sig == sig) {
         Some(rep)
     } else {
@@ -39,10 +41,13 @@ fn set_budget(scn: &mut Scenario, ci: usize, si: usize, nth: u64) {
     }
 }
 
-pub fn minimise(check: &dyn Check, scn: &Scenario, sig: &str) -> (Scenario, Report) {
+/// `work`: remaining budget of seam events the candidate runs may execute (deterministic bound
+/// on the cost of minimisation; the first evaluation is always performed).
+pub fn minimise(check: &dyn Check, scn: &Scenario, sig: &str, work: &mut u64) -> (Scenario, Report) {
     let mut budget: u32 = 250;
     let mut best = scn.clone();
-    let mut best_rep = match still(check, &best, sig, &mut budget) {
+    *work = (*work).max(1);
+    let mut best_rep = match still(check, &best, sig, &mut budget, work) {
         Some(r) => r,
         None => {
             // not reproducible from the scenario alone (entropy-dependent): keep as is
@@ -54,7 +59,7 @@ pub fn minimise(check: &dyn Check, scn: &Scenario, sig: &str) -> (Scenario, Repo
         ($cand:expr) => {{
             let cand: Scenario = $cand;
             if cand != best {
-                if let Some(r) = still(check, &cand, sig, &mut budget) {
+                if let Some(r) = still(check, &cand, sig, &mut budget, work) {
                     best = cand;
                     best_rep = r;
                     true
